@@ -129,6 +129,13 @@ func (r *RdbReader) checkHeader() error {
 		return err
 	}
 	fileCrc := binary.LittleEndian.Uint64(buf)
+	// a zero trailer records no checksum (a source running "rdbchecksum no", or a tail that reads back
+	// as zeros) : nothing can be verified against it, and the CRC64 of an all-zero file IS zero
+	if fileCrc == 0 {
+		r.reader.Seek(0, 0)
+		return errors.Join(common.ErrCorrupted,
+			fmt.Errorf("rdb file carries no checksum : file(%s)", r.filePath))
+	}
 
 	// resume
 	_, err = r.reader.Seek(0, 0)
